@@ -512,6 +512,77 @@ class Gen:
         d = {'ty': 'type.ind', 'name': name, 'args': targs, 'constrs': constrs, '_attack': sorted(attack), '_family': 'type.ind'}
         return d, {'name': name, 'args': targs, 'T': T, 'constrs': info}
 
+    # shapes of a constructor argument that mentions the datatype being defined at ANOTHER instance (non-uniform recursion)
+    NONUNIFORM_SHAPES = ['ground', 'ground-bool', 'swapped', 'diagonal', 'nested-self', 'grown', 'constant-args',
+                         'under-list', 'under-fun', 'under-list-of-other-instance']
+
+    def other_instance(self, name, targs, shape):
+        """-> (type of the argument, True if the argument ITSELF is the datatype at another instance)"""
+        r = self.rng
+        tv = [('tv', a) for a in targs]
+        D = ('tc', name, tuple(tv))
+        mk = lambda *xs: ('tc', name, tuple(xs))
+        if shape == 'ground':
+            return mk(*[NAT] * len(tv)), True
+        if shape == 'ground-bool':
+            return mk(*([BOOL] + [NAT] * (len(tv) - 1))), True
+        if shape == 'swapped' and len(tv) == 2:
+            return mk(tv[1], tv[0]), True
+        if shape == 'diagonal' and len(tv) == 2:
+            return mk(tv[0], tv[0]), True
+        if shape == 'nested-self':
+            return mk(*([D] + tv[1:])), True
+        if shape == 'grown':
+            return mk(*([r.choice([lst, st])(tv[0])] + tv[1:])), True
+        if shape == 'constant-args':
+            return mk(*([tv[0]] * (len(tv) - 1) + [r.choice([NAT, BOOL, lst(NAT)])])), True
+        if shape == 'under-list':
+            return lst(mk(*[NAT] * len(tv))), False
+        if shape == 'under-fun':
+            return S.fun(NAT, mk(*[NAT] * len(tv))), False
+        if shape == 'under-list-of-other-instance':
+            return mk(*([lst(mk(*[NAT] * len(tv)))] + tv[1:])), True
+        return mk(*[NAT] * len(tv)), True
+
+    def gen_datatype_nonuniform(self, shape=None):
+        """datatype with 1-2 type arguments in which some constructor takes the datatype at another type instance.
+        -> (description, info, shape) ; the description is meant to be well-formed (no attack): whatever the repo
+        generates from it has to be well-typed, and its induction theorem must not apply P to such an argument."""
+        r = self.rng
+        self.uni = r.random() < 0.3
+        targs = r.choice([['a'], ['a'], ['a', 'b'], ['b', 'a']])
+        shape = shape or r.choice(self.NONUNIFORM_SHAPES)
+        if shape in ('swapped', 'diagonal'):
+            targs = r.choice([['a', 'b'], ['b', 'a']])
+        name = self.fresh('dt')
+        T = ('tc', name, tuple(('tv', a) for a in targs))
+        self.tvars = [('tv', a) for a in targs]
+        pool = ['y', 'l', 'r', 'n', 'v', 'f', 'x1', 'xs', 't', 'x']
+        r.shuffle(pool)
+        constrs, info = [], []
+        if r.random() < 0.8:                 # a base case (not required: the item is judged, not its inhabitants)
+            cname = self.fresh('C')
+            argTs = [self.rand_type(0)] if r.random() < 0.3 else []
+            info.append((cname, argTs, pool[:len(argTs)]))
+        layout = r.choice(['alone', 'after-uniform', 'before-uniform', 'between-uniform', 'after-plain', 'twice', 'two-constructors'])
+        other, direct = self.other_instance(name, targs, shape)
+        plain = self.rand_type(1)
+        argTs = {'alone': [other], 'after-uniform': [T, other], 'before-uniform': [other, T], 'between-uniform': [T, other, T],
+                 'after-plain': [plain, other], 'twice': [other, self.other_instance(name, targs, r.choice(self.NONUNIFORM_SHAPES))[0]],
+                 'two-constructors': [plain, T]}[layout]
+        r.shuffle(pool)
+        info.append((self.fresh('C'), argTs, pool[:len(argTs)]))
+        if layout == 'two-constructors':
+            r.shuffle(pool)
+            info.append((self.fresh('C'), [other], pool[:1]))
+        if r.random() < 0.3:
+            r.shuffle(info)
+        for cname, argTs, anames in info:
+            constrs.append({'name': cname, 'args': list(anames), 'type': ty_text(S.funs(*(argTs + [T])), self.uni)})
+        d = {'ty': 'type.ind', 'name': name, 'args': targs, 'constrs': constrs, '_attack': [], '_family': 'type.ind:non-uniform',
+             '_nonuniform': (shape, layout, direct)}
+        return d, {'name': name, 'args': targs, 'T': T, 'constrs': info}, shape
+
     def patterns(self, D, dt_info):
         """constructor patterns of type D: [(pattern text, [(var, type)], [recursive vars])]"""
         if D == NAT:
@@ -843,6 +914,16 @@ class Gen:
             if r.random() < 0.3:
                 ds.append(self.gen_header())
             return 'type.ax', ds
+        if x < 0.862:
+            # directed: non-uniformly recursive datatypes (an argument is the datatype at another type instance)
+            dt, info, shape = self.gen_datatype_nonuniform()
+            ds = [dt]
+            z = r.random()
+            if z < 0.3:
+                ds.append(self.gen_fun(info, attack=()))
+            elif z < 0.5:
+                ds.append(self.gen_pred(info, attack=()))
+            return 'type.ind:non-uniform:' + shape, ds
         # datatype-centred sequences
         y = r.random()
         att = ()
